@@ -224,13 +224,37 @@ class AbstractSpatialMap(AbstractObj):
             # (a fresh name per call site would also do; what it equals is the map's business, see C07)
             i = tr.scalar(args[2])
             tr.globals_a['SPEC_BACK'] = REAL
-            tr.spatial_back_calls = getattr(tr, 'spatial_back_calls', []) + [(i, args[1])]
+            ns = tr.namespace()
+            for j, a in enumerate(args):
+                ns['arg%d' % j] = a
+            tr.anchor('spatial_map.backwardGrad', ns)
             return ExprMat(E.idx('SPEC_DOF', i, INT), 1, lambda r, c, i=i: E.idx('SPEC_BACK', i * 64 + E.const(r), REAL))
         raise ValueError('abstract spatial map: no rule for %s' % name)
 
 
 def DOF(i):
     return E.idx('SPEC_DOF', i, INT)
+
+
+class AbstractTimeMap(AbstractObj):
+    """a time map known only through its protocol: toTime(tau) > 0 (a pure function of tau), backward(tau, T, gradT) some value
+    (what it must equal for the bundled maps is C17).  Anchors 'time_map.toTime' (arg0, ret) and 'time_map.backward' (arg0..2, ret)."""
+    identity_tag = 8
+
+    def call(self, tr, name, args, n):
+        from ir import Havoc, Assume
+        if name not in ('toTime', 'backward', 'toTau'):
+            raise ValueError('abstract time map: no rule for %s' % name)
+        r = tr.new_scalar('tm_' + name, REAL)
+        tr.emit(Havoc(scalars=[(r.name, REAL)]))
+        if name == 'toTime':
+            tr.emit(Assume(r.rd() > 0, 'protocol of time maps: durations are positive'))
+        ns = tr.namespace()
+        for j, a in enumerate(args):
+            ns['arg%d' % j] = a
+        ns['ret'] = r
+        tr.anchor('time_map.' + name, ns)
+        return r.rd()
 
 
 def flags(S):
@@ -400,7 +424,7 @@ class SetSpatialMap(Contract):
 # ================================================================================================ running-cost quadrature (C08, C12, C07)
 from values import Mat, ScalarVar, CellRef, LambdaV, VOID
 from ir import Havoc, Assume
-from speclib import der
+from speclib import der, ff, power
 
 
 class AbstractIntegralCost(AbstractObj):
@@ -479,7 +503,7 @@ class CalculateIntegralCost(Contract):
         T, SS, SC, XB = (ws.fields[f] for f in ('cache_times', 'segment_start_times', 'segment_costs', 'explicit_time_grad_buffer'))
         C = ws.fields['spline'].fields['trajectory_'].fields['coefficients_']
         gdC, gdT = S.v('gdC'), S.v('gdT')
-        S.requires((N >= 0) & (N <= NMAX) & (K >= 1) & (K <= NMAX), 'sizes_sane')
+        S.requires((N >= 1) & (N <= NMAX) & (K >= 1) & (K <= NMAX), 'sizes_sane')
         S.requires(T.size().eq(N) & SS.size().eq(N) & SC.size().eq(N) & XB.R.eq(N) & gdT.R.eq(N) & gdC.R.eq(nc * N) & C.R.eq(nc * N), 'workspace_sized_for_N')
         S.i2r_axioms()
         RK, _ = S.spec_array('RK')
@@ -492,7 +516,20 @@ class CalculateIntegralCost(Contract):
         S.ensures(S.forall(0, N, lambda i: SS.at(i).eq(S.start_time_ + PT(i))), 'segment_start_is_start_time_plus_elapsed_durations')
         S.ensures(S.cost.eq(S.old.cost + PTRAP(N)), 'cost_grows_by_sum_of_segment_trapezoid_sums')
         S.ensures(SS.size().eq(N) & SC.size().eq(N) & XB.R.eq(N) & gdT.R.eq(N) & gdC.R.eq(nc * N), 'buffer_sizes_unchanged')
-        S.terms(0, N)
+        # ---- gradient side (C07): per-segment sums named by spec arrays (their meaning is fixed, sample by sample, inside the callback)
+        #   QT[i]: d/dT_i of segment i's quadrature (value term, drift of the sample point, explicit time through t_global)
+        #   QX[i]: sum over the samples of segment i of  w_k dt_i dc/dt_global  (acts on every EARLIER duration)
+        #   QC[m,d][i]: d/dc_(i,m,d) of segment i's quadrature
+        QT, _ = S.spec_array('QT', shared=True)
+        QX, _ = S.spec_array('QX', shared=True)
+        QC = dict(((m, d), S.spec_array('QC_%d_%d' % (m, d), shared=True)[0]) for m in range(nc) for d in range(D))
+        PQX = S.define_prefix_sum('PQX', N, lambda i: QX(i))
+        G0T, G0C = S.old.get('gdT'), S.old.get('gdC')
+        S.ensures(S.forall(0, N, lambda j: [gdT.at(j, 0).eq(G0T.at(j, 0) + QT(j) + (PQX(N) - PQX(j + 1)))]),
+                  'duration_gradient_gains_own_segment_terms_and_explicit_time_terms_of_later_segments')
+        S.ensures(S.forall(0, N, lambda i: [gdC.at(i * nc + m, d).eq(G0C.at(i * nc + m, d) + QC[(m, d)](i)) for m in range(nc) for d in range(D)]),
+                  'coefficient_gradient_gains_the_segment_quadrature_partials')
+        S.terms(0, N, N - 1)
         if S.mode != 'verify':
             return
         ex = S.gen.fn.params['executor']
@@ -509,11 +546,59 @@ class CalculateIntegralCost(Contract):
         PS = S.define_prefix_sum('PS', K + 1, lambda k: trap_weight(k, K) * (Ti() * rk) * CV(k))
         kvar = {}
 
+        NR = 5                                   # gp, gv, ga, gj, gs
+        GRA = dict(((r, d), S.spec_array('GR_%d_%d' % (r, d))[0]) for r in range(NR) for d in range(D))     # names: functor outputs of sample k
+        GTA, _ = S.spec_array('GTk')
+        tk = lambda k: to_real(k) * rk * Ti()
+        wk = lambda k: trap_weight(k, K)
+        dti = lambda: Ti() * rk
+
+        def dder_dc(m, r, t):
+            # d/dc_m of the r-th derivative of the piece at local time t (power rule)
+            return E.const(Fraction(ff(m, r))) * power(t, m - r) if m >= r else E.const(Fraction(0))
+
+        def c_term(m, d, k, g):
+            return wk(k) * dti() * esum([g(r, d) * dder_dc(m, r, tk(k)) for r in range(NR)])
+
+        def t_term(k, cv, g, gt):
+            drift = esum([g(r, d) * der(C, nc, idx(), r + 1, tk(k), d) for r in range(NR) for d in range(D)])
+            alpha = to_real(k) * rk
+            return cv * wk(k) * rk + drift * alpha * wk(k) * dti() + gt * alpha * wk(k) * dti()
+        named = lambda k: (lambda r, d: GRA[(r, d)](k))
+        PSC = dict(((m, d), S.define_prefix_sum('PSC_%d_%d' % (m, d), K + 1, lambda k, m=m, d=d: c_term(m, d, k, named(k)))) for m in range(nc) for d in range(D))
+        PST = S.define_prefix_sum('PST', K + 1, lambda k: t_term(k, CV(k), named(k), GTA(k)))
+        PSX = S.define_prefix_sum('PSX', K + 1, lambda k: GTA(k) * wk(k) * dti())
+        AIN = dict((nm, S.fresh_real('acc_in_' + nm)) for nm in ['cost', 'gdT', 'x'] + ['c_%d_%d' % (m, d) for m in range(nc) for d in range(D)])
+
         def loop1_inv(L):
             kvar['k'] = L.i
-            return [('range', (L.i >= 0) & (L.i <= K + 1)),
-                    ('partial_trapezoid_sum', L.local_acc_cost.eq(PS(L.i)))]
-        S.loop(1, inv=loop1_inv, variant=lambda L: K + 1 - L.i, terms=lambda L: [L.i])
+            out = [('range', (L.i >= 0) & (L.i <= K + 1)),
+                   ('partial_trapezoid_sum', L.local_acc_cost.eq(PS(L.i))),
+                   ('partial_duration_gradient', L.local_acc_gdT.eq(PST(L.i))),
+                   ('partial_explicit_time_gradient', L.local_acc_explicit_time_grad.eq(PSX(L.i)))]
+            out += [('partial_coefficient_gradient_%d_%d' % (m, d), L.local_acc_gdC.at(m, d).eq(PSC[(m, d)](L.i))) for m in range(nc) for d in range(D)]
+            return out
+
+        def loop1_names(L):
+            out = [(AIN['cost'], L.local_acc_cost), (AIN['gdT'], L.local_acc_gdT), (AIN['x'], L.local_acc_explicit_time_grad)]
+            out += [(AIN['c_%d_%d' % (m, d)], L.local_acc_gdC.at(m, d)) for m in range(nc) for d in range(D)]
+            return out
+
+        def loop1_pre(L):
+            return [('k', (L.i >= 0) & (L.i <= K)), ('one_over_K', L.inv_K.eq(rk) & L.K.eq(K)), ('dt', L.dt.eq(dti()) & L.T.eq(Ti())), ('seg', L.i.eq(L.i) & S.wrap(L.ns['i']).eq(idx())),
+                    ('coefficients_of_the_piece', conj([L.coeff_block.at(m, d).eq(C.at(idx() * nc + m, d)) for m in range(nc) for d in range(D)]))]
+
+        def loop1_post(L):
+            k = L.i
+            loc = [L.gp, L.gv, L.ga, L.gj, L.gs]
+            g = lambda r, d: loc[r].at(d, 0)
+            out = [('cost', L.local_acc_cost.eq(AIN['cost'] + wk(k) * dti() * L.c_val)),
+                   ('gdT', L.local_acc_gdT.eq(AIN['gdT'] + t_term(k, L.c_val, g, L.gt))),
+                   ('explicit', L.local_acc_explicit_time_grad.eq(AIN['x'] + L.gt * wk(k) * dti()))]
+            out += [('gdC_%d_%d' % (m, d), L.local_acc_gdC.at(m, d).eq(AIN['c_%d_%d' % (m, d)] + c_term(m, d, k, g))) for m in range(nc) for d in range(D)]
+            return out
+        S.loop(1, inv=loop1_inv, variant=lambda L: K + 1 - L.i, terms=lambda L: [L.i],
+               local=dict(names=loop1_names, pre=loop1_pre, post=loop1_post))
 
         def at_call(G):
             ns = G.ctx
@@ -527,20 +612,46 @@ class CalculateIntegralCost(Contract):
                 for d in range(D):
                     G.lemma(val.at(d, 0).eq(der(C, nc, idx(), m, t, d)), 'sample_%s_is_derivative_%d_of_piece_coord%d' % (nm, m, d))
         S.ghost('integral_cost.call', at_call)
-        S.ghost('integral_cost.ret', lambda G: G.assume_fact(G.ctx.ret.eq(CV(kvar['k'])), 'CV[k] names the value returned for sample k'))
+        def at_ret(G):
+            ns = G.ctx
+            k = kvar['k']
+            G.assume_fact(ns.ret.eq(CV(k)), 'CV[k] names the value returned for sample k')
+            for r in range(NR):
+                out_ = ns.v('arg%d' % (8 + r))
+                for d in range(D):
+                    G.assume_fact(out_.at(d, 0).eq(GRA[(r, d)](k)), 'GR[r][d][k] names the gradient output r of sample k')
+            G.assume_fact(ns.arg13.eq(GTA(k)), 'GTk[k] names the explicit-time gradient output of sample k')
+        S.ghost('integral_cost.ret', at_ret)
 
         def at_end(G):
             G.lemma(SC.at(idx()).eq(PS(K + 1)), 'segment_cost_is_trapezoid_sum')
+            G.lemma(gdT.at(idx(), 0).eq(G0T.at(idx(), 0) + PST(K + 1)), 'segment_duration_gradient')
+            G.lemma(XB.at(idx(), 0).eq(PSX(K + 1)), 'segment_explicit_time_gradient')
+            for m in range(nc):
+                for d in range(D):
+                    G.lemma(gdC.at(idx() * nc + m, d).eq(G0C.at(idx() * nc + m, d) + PSC[(m, d)](K + 1)), 'segment_coefficient_gradient_%d_%d' % (m, d))
             G.assume_fact(TRAP(idx()).eq(PS(K + 1)), 'TRAP[i] names the trapezoid sum of segment i')
+            G.assume_fact(QT(idx()).eq(PST(K + 1)) & QX(idx()).eq(PSX(K + 1)), 'QT[i], QX[i] name the duration-gradient sums of segment i')
+            for m in range(nc):
+                for d in range(D):
+                    G.assume_fact(QC[(m, d)](idx()).eq(PSC[(m, d)](K + 1)), 'QC[m,d][i] names the coefficient-gradient sum of segment i')
             # parallel-for rule: every index has been processed exactly once, each writing only its own cells
-            G.havoc(arrays=[(a, REAL) for a in (SC.arr, )])
-            G.assume_fact(S.forall(0, N, lambda i: SC.at(i).eq(TRAP(i))), 'parallel-for: per-index postcondition for all indices')
+            G.havoc(arrays=[(SC.arr, REAL), (gdT.col(0), REAL), (XB.col(0), REAL)] + [(gdC.col(d), REAL) for d in range(D)])
+            G.assume_fact(S.forall(0, N, lambda i: [SC.at(i).eq(TRAP(i)), gdT.at(i, 0).eq(G0T.at(i, 0) + QT(i)), XB.at(i, 0).eq(QX(i))] +
+                                   [gdC.at(i * nc + m, d).eq(G0C.at(i * nc + m, d) + QC[(m, d)](i)) for m in range(nc) for d in range(D)]),
+                          'parallel-for: per-index postcondition for all indices')
         S.ghost('executor.end', at_end)
         S.loop(3, inv=lambda L: [
             ('range', (L.i >= 0) & (L.i <= N)),
             ('partial_cost', S.cost.eq(S.old.cost + PTRAP(L.i))),
         ], variant=lambda L: N - L.i, terms=lambda L: [L.i])
-        S.loop(4, inv=lambda L: [('range', (L.i >= -1) & (L.i <= N - 1))], variant=lambda L: L.i, terms=lambda L: [L.i])
+        keep = lambda: [('coefficient_gradient', S.forall(0, N, lambda i: [gdC.at(i * nc + m, d).eq(G0C.at(i * nc + m, d) + QC[(m, d)](i)) for m in range(nc) for d in range(D)])),
+                        ('explicit_buffer', S.forall(0, N, lambda i: [XB.at(i, 0).eq(QX(i))]))]
+        S.loop(4, inv=lambda L: [('range', (L.i >= -1) & (L.i <= N - 1) & ((N >= 1) | L.i.eq(-1))),
+                                 ('accumulator', L.accumulator.eq(PQX(N) - PQX(L.i + 1)))] + keep() +
+               [('done', S.forall(L.i, N, lambda j: [gdT.at(j, 0).eq(G0T.at(j, 0) + QT(j) + (PQX(N) - PQX(j + 1)))])),
+                ('pending', S.forall(0, L.i, lambda j: [gdT.at(j, 0).eq(G0T.at(j, 0) + QT(j))]))],
+               variant=lambda L: L.i, terms=lambda L: [L.i, L.i - 1, L.i + 1])
 
 
 class AbstractCostFunctor(AbstractObj):
@@ -627,6 +738,33 @@ class Evaluate(Contract):
         tc, wc, trap, en = (S.fresh_real(b) for b in ('tcv', 'wcv', 'trapv', 'env'))
         S.ensures(S.result.eq(tc + wc + trap + ite(S.rho_energy_ > 0, S.rho_energy_ * en, 0)),
                   'cost_is_time_cost_plus_waypoint_cost_plus_quadrature_plus_weighted_energy')
+        # ---- gradient assembly (C07): names for the results of the gradient sources, then the chain-rule combination
+        GR, EGr, WG = W('grads'), W('energy_grads'), W('discrete_grad_q_buffer')
+        rho = S.rho_energy_
+        wE = lambda e: ite(rho > 0, rho * e, 0)
+        PGT, PGTn = S.spec_array('PG_times')           # propagateGrad's duration gradient (snapshot right after the call)
+        PGI = dict((d, S.spec_array('PG_inner_%d' % d)) for d in range(D))
+        bcn = ['p', 'v'] + (['a'] if order_of(S) >= 5 else []) + (['j'] if order_of(S) >= 7 else [])
+        PGB = dict(((side, nm, d), S.fresh_real('pg_%s_%s_%d' % (side, nm, d))) for side in ('start', 'end') for nm in bcn for d in range(D))
+        TB, _ = S.spec_array('TBACK')                  # TBACK[i] names time_map.backward(x[i], T_i, dCost/dT_i)
+        S.ensures(S.forall(0, N, lambda i: [GR.fields['times'].at(i, 0).eq(PGT(i) + wE(EGr.fields['times'].at(i, 0)))]), 'duration_gradient_is_propagated_plus_weighted_energy_gradient')
+        for d in range(D):
+            S.ensures(S.forall(0, N - 1, lambda r, d=d: [GR.fields['inner_points'].at(r, d).eq(PGI[d][0](r) + WG.at(r + 1, d) + wE(EGr.fields['inner_points'].at(r, d)))]),
+                      'inner_point_gradient_is_propagated_plus_waypoint_cost_gradient_plus_weighted_energy_gradient_%d' % d)
+            for side, row in (('start', 0), ('end', N)):
+                for nm in bcn:
+                    extra = WG.at(row, d) if nm == 'p' else 0
+                    S.ensures(GR.fields[side].fields[nm].at(d, 0).eq(PGB[(side, nm, d)] + extra + wE(EGr.fields[side].fields[nm].at(d, 0))), '%s_%s_gradient_combination_%d' % (side, nm, d))
+        S.ensures(S.forall(0, N, lambda i: [gout.at(i, 0).eq(TB(i))]), 'duration_variables_receive_time_map_backward_of_the_duration_gradient')
+        point_grad = lambda p, d: ite(E.const(p).eq(0), GR.fields['start'].fields['p'].at(d, 0), ite(E.const(p).eq(N), GR.fields['end'].fields['p'].at(d, 0), GR.fields['inner_points'].at(E.const(p) - 1, d)))
+        back0 = lambda k: [implies(DOF(k + first_idx(S)) >= 1, gout.at(OFF(k), 0).eq(E.idx('SPEC_BACK', (k + first_idx(S)) * 64, REAL)))]
+        rank = E.const(0)
+        for f, flag in bc_slots(S):
+            side, nm = f.split('_')[0], f.split('_')[1][0]
+            for d in range(D):
+                S.ensures(implies(fl[flag], gout.at(doff + rank * D + d, 0).eq(GR.fields[side].fields[nm].at(d, 0))), 'boundary_block_%s_receives_its_gradient_%d' % (f, d))
+            rank = rank + ite(fl[flag], 1, 0)
+        S.ensures(gout.R.eq(x.R), 'gradient_has_the_size_of_the_decision_vector')
         if S.mode != 'verify':
             return
         from ir import LV
@@ -640,10 +778,20 @@ class Evaluate(Contract):
         S.terms(cnt - S.sk(0) - 1, cnt - S.sk(0))
         S.ghost('entry', lambda G: G.induction(0, cnt + 1, lambda j: [OFF(cnt - j) <= OFF(cnt)], 'offsets_below_total'))
         # ---- decode
-        S.loop(0, inv=lambda L: [
-            ('range', (L.i >= 0) & (L.i <= N)),
-            ('durations_decoded', S.forall(0, L.i, lambda j: quad_inv_time_is(T.at(j), x.at(j, 0)))),
-        ], variant=lambda L: N - L.i, terms=lambda L: [L.i])
+        TT, _ = S.spec_array('TT')            # TT[i] names toTime(x[i]) (the time map is a pure function; one call per i)
+        loopvar = {}
+
+        def loop0_inv(L):
+            loopvar[0] = L.i
+            return [('range', (L.i >= 0) & (L.i <= N)),
+                    ('durations_decoded', S.forall(0, L.i, lambda j: [T.at(j).eq(TT(j)), TT(j) > 0]))]
+        S.loop(0, inv=loop0_inv, variant=lambda L: N - L.i, terms=lambda L: [L.i])
+
+        def to_time(G):
+            ns = G.ctx
+            G.lemma(ns.arg0.eq(x.at(loopvar[0], 0)), 'duration_i_is_time_map_of_variable_i')
+            G.assume_fact(ns.ret.eq(TT(loopvar[0])), 'TT[i] names toTime(x[i])')
+        S.ghost('time_map.toTime', to_time)
         lay_inv = lambda: [
             ('layout_size', lay.size().eq(cnt) & mk_not(S.layout_dirty_)),
             ('layout_entries', S.forall(0, lay.size(), lambda k: conj([
@@ -673,7 +821,7 @@ class Evaluate(Contract):
                             'boundary_%s_decoded_coord%d' % (f, d))
                 rank = rank + ite(fl[flag], 1, 0)
             sk = S.sk(0)
-            G.lemma(implies((sk >= 0) & (sk < N), quad_inv_time_is(T.at(sk), x.at(sk, 0))), 'durations_are_time_map_of_first_N_variables')
+            G.lemma(implies((sk >= 0) & (sk < N), T.at(sk).eq(TT(sk))), 'durations_are_time_map_of_first_N_variables')
             for d in range(D):
                 G.lemma(implies((sk >= 0) & (sk <= N), CW.at(sk, d).eq(decoded_row(sk, d))), 'waypoints_are_spatial_map_of_layout_entries_else_reference_coord%d' % d)
         S.ghost('call.update.before', before_update)
@@ -693,9 +841,45 @@ class Evaluate(Contract):
         S.ghost('call.calculateIntegralCost.before', lambda G: G.set(lv(snap), G.ctx.total_cost))
         S.ghost('call.calculateIntegralCost.after', lambda G: G.set(lv(trap), G.ctx.total_cost - snap))
         S.ghost('call.getEnergy.after', lambda G: G.set(lv(en), G.ctx.ret))
-        # ---- gradient write-back loops: shapes only here
-        S.loop(2, inv=lambda L: [('range', (L.i >= 0) & (L.i <= N))], variant=lambda L: N - L.i, terms=lambda L: [L.i])
-        S.loop(3, inv=lambda L: lay_inv() + [('range', (L.i >= 0) & (L.i <= lay.size()))], variant=lambda L: lay.size() - L.i, terms=lambda L: [L.i, L.i + 1, cnt - L.i - 1, cnt - L.i])
+        def after_propagate(G):
+            G.copy_array(PGTn, GR.fields['times'].col(0))
+            for d in range(D):
+                G.copy_array(PGI[d][1], GR.fields['inner_points'].col(d))
+            for (side, nm, d), z in PGB.items():
+                G.set(lv(z), GR.fields[side].fields[nm].at(d, 0))
+        S.ghost('call.propagateGrad.after', after_propagate)
+        # ---- write-back through the time map
+        grads_final = lambda: [('duration_gradient', S.forall(0, N, lambda i: [GR.fields['times'].at(i, 0).eq(PGT(i) + wE(EGr.fields['times'].at(i, 0)))])),
+                               ('shapes', GR.fields['times'].R.eq(N) & GR.fields['inner_points'].R.eq(ite(N > 1, N - 1, 0)) & gout.R.eq(x.R))]
+
+        def loop2_inv(L):
+            loopvar[2] = L.i
+            return grads_final() + [('range', (L.i >= 0) & (L.i <= N)), ('written', S.forall(0, L.i, lambda i: [gout.at(i, 0).eq(TB(i))]))]
+        S.loop(2, inv=loop2_inv, variant=lambda L: N - L.i, terms=lambda L: [L.i])
+
+        def backward(G):
+            ns = G.ctx
+            i = loopvar[2]
+            G.lemma(ns.arg0.eq(x.at(i, 0)) & ns.arg1.eq(T.at(i)) & ns.arg2.eq(GR.fields['times'].at(i, 0)), 'time_map_backward_receives_variable_duration_and_duration_gradient')
+            G.assume_fact(ns.ret.eq(TB(i)), 'TBACK[i] names the result')
+        S.ghost('time_map.backward', backward)
+        # ---- write-back through the spatial map
+        def loop3_inv(L):
+            loopvar[3] = L.i
+            return lay_inv() + [('range', (L.i >= 0) & (L.i <= lay.size())), ('shape', gout.R.eq(x.R)),
+                                ('offsets_monotone_so_far', S.forall(0, L.i + 1, lambda k: [OFF(k) <= OFF(L.i)])),
+                                ('time_part', S.forall(0, N, lambda i: [gout.at(i, 0).eq(TB(i))])),
+                                ]
+        S.loop(3, inv=loop3_inv, variant=lambda L: lay.size() - L.i, terms=lambda L: [L.i, L.i + 1, cnt - L.i - 1, cnt - L.i, E.const(0), OFF(S.sk(0)), OFF(L.i), S.sk(0) + 1, S.sk(0)])
+
+        def spatial_back(G):
+            ns = G.ctx
+            k = loopvar[3]
+            p = k + first_idx(S)
+            G.lemma(ns.arg2.eq(p), 'spatial_backward_receives_the_point_index')
+            for d in range(D):
+                G.lemma(ns.v('arg1').at(d, 0).eq(point_grad(p, d)), 'spatial_backward_receives_the_gradient_of_that_point_%d' % d)
+        S.ghost('spatial_map.backwardGrad', spatial_back)
 
 
 # ================================================================================================ copies (C15)
